@@ -67,6 +67,17 @@ class C15(XsProp):
                      '[ 255 ] >bitstr open-bitstr 3 bits close-bitstr dup |x.| bitstr-append swap bitstr-not', '[ 170 85 ] >bitstr open-bitstr 4 bits drop 8 bits close-bitstr 0 3 uint! swap bitstr-append', '[ 1 2 ] foreach I loop 3 0 do I loop', ': r local n n 0 > if n 1 - r then n ; 3 r', ': f local a a ^hex local a a ; 9 f print', '3 0 do I 1 == if break then I loop 7']:
             for (m, rec) in MODES:
                 cs.append(mode_case(hexsrc(prog), m, rec, '3000 - -'))
+        # enum builders: build-time code in all six drive modes
+        for prog in ['enum E : A : B 7 = C : D endenum A B C D', 'enum E endenum 1', 'enum E 1 2 + = X : Y endenum X Y', ': f enum Q : Z endenum Z ; f',
+                     'enum E : A endenum enum F A 5 + = B endenum B', '[ enum E : A : B endenum B ]', 'enum E "s" = A endenum', 'enum E : A 1 endenum',
+                     'enum E : A', 'endenum', '1 enum E 170141183460469231731687303715884105727 = A : B endenum']:
+            for (m, rec) in MODES:
+                cs.append(mode_case(hexsrc(prog), m, rec, '3000 - -'))
+        for (m, rec) in MODES:
+            cs.append(mode_case(hexsrc('enum E : A 9 = B endenum A B'), m, rec, '3000 - -', setup=('5 6',)))
+        # recorded finding D38: `endenum` checks "no values left" against the mode-dependent stack mark
+        for (m, rec) in MODES:
+            cs.append(mode_case(hexsrc('#( endenum'), m, rec, '3000 - -', setup=('5',)))
         # recorded finding D33: a user-defined immediate word runs at build time; `compile` hides the caller's stack from it, `eval` does not
         for (m, rec) in MODES:
             cs.append(mode_case(hexsrc('foo'), m, rec, '3000 - -', setup=(': foo immediate drop ;', '7 8')))
@@ -75,10 +86,16 @@ class C15(XsProp):
     D33 = ('a user-defined immediate word that touches the data stack at build time: eval lets it see (and consume) the values already on '
            'the stack, compile hides them (witness: `: foo immediate drop ;` `7 8`, then eval "foo" -> ok with 7 left; compile "foo" -> stack underflow)')
 
+    D38 = ('`endenum` outside an enum, with values on the stack: the "enum data stack contains unused elements" test reads the stack mark of '
+           'the context it returns to, which eval leaves at the bottom and compile puts at the top - eval reports that message, compile a '
+           'control-flow error (witness: `5`, then `#( endenum`; Coq: C15_endenum_mode_refuted)')
+
     def known(self, text, impl, spec):
         m = re.search(r'sources: (.*)', text)
         if m and re.search(r':\s+\S+\s+immediate\b', m.group(1)):
             return self.D33
+        if m and re.search(r'\bendenum\b', m.group(1)) and not re.search(r'\benum\s', m.group(1)):
+            return self.D38
         return None
 
     @staticmethod
